@@ -47,7 +47,7 @@ macro_rules! canon_int {
         impl Canon for $t { fn canon(&self) -> Sx { tagged("int", vec![int(*self as i128)]) } }
     )*};
 }
-canon_int!(u8, u16, u32, u64, usize, i8, i16, i32, i64, i128, isize);
+canon_int!(u8, u16, u32, u64, i8, i16, i32, i64, i128, isize);
 impl Canon for u128 {
     fn canon(&self) -> Sx {
         tagged("int", vec![atom(self.to_string())])
@@ -242,5 +242,46 @@ impl<V: Canon> Canon for std::collections::BTreeMap<syn::Ident, V> {
 impl<V: Canon> Canon for std::collections::HashMap<syn::Path, V> {
     fn canon(&self) -> Sx {
         map_rows(self.iter().map(|(k, v)| (toks(k), v)))
+    }
+}
+
+impl Canon for syn::Generics {
+    fn canon(&self) -> Sx {
+        tagged("toks", vec![st(format!("{} | {}", toks(self), self.where_clause.as_ref().map(toks).unwrap_or_default()))])
+    }
+}
+impl Canon for syn::Attribute {
+    fn canon(&self) -> Sx {
+        tagged("toks", vec![st(toks(self))])
+    }
+}
+impl Canon for syn::TypeParamBound {
+    fn canon(&self) -> Sx {
+        tagged("toks", vec![st(toks(self))])
+    }
+}
+impl Canon for usize {
+    fn canon(&self) -> Sx {
+        tagged("int", vec![nat(*self as u128)])
+    }
+}
+fn style_name(s: darling::ast::Style) -> &'static str {
+    match s {
+        darling::ast::Style::Struct => "named",
+        darling::ast::Style::Tuple => "tuple",
+        darling::ast::Style::Unit => "unit",
+    }
+}
+impl<F: Canon> Canon for darling::ast::Fields<F> {
+    fn canon(&self) -> Sx {
+        tagged("rec", vec![st(style_name(self.style)), list(vec![st("entries"), tagged("list", self.fields.iter().map(|f| f.canon()).collect())])])
+    }
+}
+impl<V: Canon, F: Canon> Canon for darling::ast::Data<V, F> {
+    fn canon(&self) -> Sx {
+        match self {
+            darling::ast::Data::Struct(f) => tagged("variant", vec![st("Data"), st("Struct"), f.canon()]),
+            darling::ast::Data::Enum(vs) => tagged("variant", vec![st("Data"), st("Enum"), tagged("list", vs.iter().map(|v| v.canon()).collect())]),
+        }
     }
 }
